@@ -1492,8 +1492,12 @@ get_getter(CPPType *expr_type, string expression,
   ostringstream desc;
   desc << "getter for ";
   if (element != nullptr) {
+    // Describe the element without its initializer, but keep it: whether the
+    // class has an implicit default constructor depends on it.
+    CPPExpression *initializer = element->_initializer;
     element->_initializer = nullptr;
     element->output(desc, 0, &parser, false);
+    element->_initializer = initializer;
     desc << ";";
   } else {
     desc << expression;
@@ -1565,8 +1569,12 @@ get_setter(CPPType *expr_type, string expression,
   ostringstream desc;
   desc << "setter for ";
   if (element != nullptr) {
+    // Describe the element without its initializer, but keep it: whether the
+    // class has an implicit default constructor depends on it.
+    CPPExpression *initializer = element->_initializer;
     element->_initializer = nullptr;
     element->output(desc, 0, &parser, false);
+    element->_initializer = initializer;
     desc << ";";
   } else {
     desc << expression;
